@@ -138,6 +138,15 @@ def run(ck):
         swept.append({"scen": "throttle", "params": p3,
                       "strat": ["phases", [["sub2", n, 300], ["env1", 10000], ["ThrottleExecutor-t", 10000], ["sub2", 10000]]],
                       "gran": "line", "facts": {"block": False, "count_none": False, "dynamic": False, "directed": True}})
+    # the hand-over thread has popped several jobs in one pass (the count was raised) and is still inside the delegate's
+    # slow submit() of the first one when another client submits: the newcomer must not overtake the popped ones
+    for cnt in (3, None):
+        pf = {"flavour": "manual", "count": {"script": [[0, 0], [100, cnt]]}, "block": False,
+              "jobs": [{"S": 0, "D": 300, "K": None, "C": False, "SD": 200}, {"S": 10, "D": 300, "K": None, "C": False},
+                       {"S": 150, "D": 300, "K": None, "C": False}], "horizon": 36000}
+        for k in range(3 if quick else 12):
+            swept.append({"scen": "throttle", "params": pf, "strat": ["random", 31 + k, 0.5], "gran": "line" if k % 2 else "sync",
+                          "facts": {"block": False, "count_none": False, "dynamic": True, "directed": True}})
     ck.run_and_validate(swept, TRACE, nontrivial=lambda t, r: True)
     ck.assumptions += [
         "in flight = handed to the delegate and neither finished nor cancelled there (never more than the executor's own count)",
